@@ -21,11 +21,15 @@ import (
 var H *vdb.Handle
 
 func initEnv(c *core.Ctx) {
-	h, err := vdb.Open(vdb.Options{})
+	h, err := vdb.Open(vdb.Options{Config: gorm.Config{NamingStrategy: namer}})
 	if err != nil {
 		panic(err)
 	}
 	H = h
+	for _, q := range childDDL {
+		_, err := H.SQL.Exec(q)
+		must(err)
+	}
 }
 
 func must(err error) {
@@ -235,6 +239,7 @@ func signatures(m *model, o *op, probs []problem) []string {
 func run(c *core.Ctx) {
 	r := c.R
 	table := fmt.Sprintf("t%d", c.Case)
+	namer.set(table)
 	m := genModel(r, table)
 	_, err := H.SQL.Exec("DROP TABLE IF EXISTS `" + table + "`")
 	must(err)
@@ -298,6 +303,17 @@ func run(c *core.Ctx) {
 				return
 			}
 			ck := condKeys(m, o)
+			if o.foc != nil {
+				// the path the generator aimed at must be the one the conditions select, and the found
+				// row must be fixed by the statement (see focFound)
+				if _, found, ok := focFound(m, o, ck); !ok || found != o.foc.wantFound {
+					c.Inc("ops_firstorcreate_skipped_path_not_fixed")
+					break
+				}
+			}
+			if o.assoc != nil {
+				seedChildren(m, o)
+			}
 			p := predict(m, o, ck)
 			H.Rec.Reset()
 			mark := H.Rec.Mark()
@@ -359,7 +375,7 @@ func run(c *core.Ctx) {
 				o.next = nil
 			}
 			// what the case exercised
-			var nMust, nDenied, nNarrow, nRefresh, nZero, nDefKept, nDefZero, nEmb, nDupMust, nDupKept, nEmpty int
+			var nMust, nDenied, nNarrow, nRefresh, nZero, nDefKept, nDefZero, nEmb, nDupMust, nDupKept, nEmpty, nAssocKept int
 			dupHit := map[string]bool{}
 			defsHit := map[string]bool{}
 			permsHit := map[string]bool{}
@@ -411,6 +427,8 @@ func run(c *core.Ctx) {
 						permsHit[f.perm] = true
 					case e.mode == mKeep && (e.cls == "omitted-column-written" || e.cls == "unselected-column-written" || e.cls == "unlisted-column-written"):
 						nNarrow++
+					case e.mode == mKeep && e.cls == "association-owner-column-written":
+						nAssocKept++ // a column of an owner row that association mode must leave alone
 					case e.mode == mKeep && (e.cls == "zero-field-written" || e.cls == "autotime-touched-by-column-update"):
 						nZero++
 					}
@@ -427,6 +445,44 @@ func run(c *core.Ctx) {
 			c.Add("cells_written_next_to_duplicate_field", nDupMust)
 			c.Add("cells_kept_although_duplicate_field_nonzero", nDupKept)
 			c.Add("cells_empty_nonnil_collection_written", nEmpty)
+			c.Add("cells_owner_row_kept_under_association_mode", nAssocKept)
+			if fo := o.foc; fo != nil {
+				path := "created"
+				if fo.wantFound {
+					path = "found"
+					nm := 0
+					for _, rw := range m.rows {
+						if ck == nil || ck[normL(rw.key)] {
+							nm++
+						}
+					}
+					if nm > 1 && fo.assign != nil {
+						c.Inc("ops_firstorcreate_found_assign_several_rows_match_conditions")
+						if o.useModel {
+							c.Inc("ops_firstorcreate_found_assign_several_rows_match_conditions_model_on_chain")
+						}
+					}
+				}
+				c.Inc("ops_firstorcreate_" + path)
+				if fo.inline {
+					c.Inc("ops_firstorcreate_condition_handed_to_finisher")
+				}
+				if fo.assign != nil {
+					c.Inc("ops_firstorcreate_" + path + "_with_assign_" + map[bool]string{true: "map", false: "struct"}[fo.assignMap])
+				}
+				if fo.attrs != nil {
+					c.Inc("ops_firstorcreate_" + path + "_with_attrs_" + map[bool]string{true: "map", false: "struct"}[fo.attrsMap])
+				}
+			}
+			if a := o.assoc; a != nil {
+				c.Inc("ops_association_" + a.verb + "_" + a.rel.typ)
+				if a.slice {
+					c.Inc("ops_association_slice_of_owners")
+				}
+				if a.withTable {
+					c.Inc("ops_association_chain_with_table")
+				}
+			}
 			if o.modelSlice {
 				var zp, zk, rp bool
 				seenK := map[string]bool{}
@@ -473,6 +529,9 @@ func run(c *core.Ctx) {
 			if o.reordered {
 				c.Inc("ops_chain_calls_reordered")
 			}
+			if o.noTable {
+				c.Inc("ops_chain_without_table")
+			}
 			if len(o.sel) > 0 {
 				c.Inc("ops_select_form_" + o.selForm)
 			}
@@ -500,7 +559,7 @@ func run(c *core.Ctx) {
 			if len(p.target) == 0 && (o.family == "updates-struct" || o.family == "updates-map" || o.family == "update" || o.family == "updatecolumns") {
 				c.Inc("ops_empty_target")
 			}
-			nontrivial := nMust+nRefresh > 0 || nDenied+nNarrow > 0
+			nontrivial := nMust+nRefresh > 0 || nDenied+nNarrow+nAssocKept > 0 || (o.foc != nil && o.foc.wantFound && o.foc.assign == nil)
 			if nontrivial {
 				c.Inc("ops_nontrivial")
 				var ph, fm []string
@@ -538,7 +597,7 @@ func run(c *core.Ctx) {
 				}
 				sort.Strings(du)
 				c.Shape(o.kind, o.tform, o.selMode, spell, ph, fm, nMust > 0, nRefresh > 0, nNarrow > 0, nZero > 0, len(p.target) > 1, m.pk.k.name, len(m.pks), dh, o.dropKey, o.reordered, listForm(o),
-					nEmb > 0, m.layoutName(), du, sliceForm(m, o), nEmpty > 0, o.returning, o.second)
+					nEmb > 0, m.layoutName(), du, sliceForm(m, o), nEmpty > 0, o.returning, o.second, extraForm(m, o), o.noTable)
 				if c.WantSample() && i == 5 {
 					c.Sample(map[string]interface{}{"model": m.decls(), "operation": desc, "target_rows": p.target, "sql": sqlOf(evs),
 						"checked": fmt.Sprintf("%d written cells, %d denied, %d narrowed, %d refreshed, %d rows outside the target unchanged", nMust, nDenied, nNarrow, nRefresh, len(m.rows)-len(p.target))})
@@ -546,6 +605,35 @@ func run(c *core.Ctx) {
 			}
 		}
 	}
+}
+
+// extraForm: the FirstOrCreate / association part of the case shape.
+func extraForm(m *model, o *op) string {
+	switch {
+	case o.foc != nil:
+		fo := o.foc
+		f := func(rc *rec, isMap bool) string {
+			switch {
+			case rc == nil:
+				return "-"
+			case isMap:
+				return "map"
+			}
+			return "struct"
+		}
+		return fmt.Sprintf("foc found=%v model=%v attrs=%s assign=%s inline=%v", fo.wantFound, o.useModel, f(fo.attrs, fo.attrsMap), f(fo.assign, fo.assignMap), fo.inline)
+	case o.assoc != nil:
+		a := o.assoc
+		var others []string
+		for _, mm := range a.mem {
+			for n := range mm {
+				others = append(others, n)
+			}
+		}
+		sort.Strings(others)
+		return fmt.Sprintf("assoc %s ptr=%v fk=%v slice=%v/%v table=%v argslice=%v mem=%v", a.rel.typ, a.rel.ptr, a.rel.fk != nil && a.rel.fk.k.name != "", a.slice, a.elemPtr, a.withTable, a.argSlice, others)
+	}
+	return ""
 }
 
 // sliceForm: what the elements of a Model(slice) look like (part of the case shape).
@@ -632,10 +720,13 @@ var Engine = &core.Engine{
 	Rule: "per case one model type built with reflect.StructOf (key int64 / uint / string / composite (int64,string); 3..7 fields of 20 Go types incl. pointers, sql.Null* and four kinds whose Go kind is Slice or Map (5 picks in 24): []byte, []string and map[string]int64 under serializer:json, and a named slice type that is its own driver.Valuer / sql.Scanner (type:text); custom column names, one random permission tag each out of <-:create, <-:update, <-:false, <-, ->, ->;<-:create, ->;<-:update, ->:false;<-:create, ->:false;<-, ->:false, -, -:migration, -:all; about 3 data fields in 10 also carry a default value in either tag order - default:(SQL expression) or default:null, which only the database evaluates (schema.FieldsWithDefaultDBValue), or a literal default:N / default:text gorm writes itself for a zero value - with the same DEFAULT in the table's DDL; 0..3 tracked time fields: UpdatedAt/CreatedAt by name, autoUpdateTime (time, seconds, milli, nano), autoCreateTime); in half of the models the non-key fields are spread over the top level and 1..2 EMBEDDED STRUCTS (embedded by tag or anonymously, by value or by pointer, with or without embeddedPrefix, one level of nesting) and 0..2 columns get a DUPLICATE field of the same Go name on a path of another length: " +
 		"a field without any permission (<-:false;->:false in either tag order) on the shorter path (top level) declared after - 1 in 3: before - the embedded struct whose writable field keeps serving the column, a field without any permission on the longer path, or a promoted field with a random permission tag shadowed by the outer field that owns the column (left zero); duplicates without permission carry non-zero values 3 times in 4, which must never reach the column; " +
 		"the table is created with raw SQL and holds 3..6 rows of unique sentinels; half of the composite-key models seed keys whose parts may be zero ((0,'a'), (1,'')); 12 writes per case, each on a re-seeded table: " +
-		"Create(struct | slice | []*T | map | []map), CreateInBatches, upsert (DoUpdates AssignmentColumns / Assignments, UpdateAll, DoNothing; conflicting and new keys mixed), Save (existing key, new key, zero key, slice, under a Where), Updates(struct by value/pointer, value = model), Updates(map), Update, UpdateColumn, UpdateColumns(struct | map) x Select/Omit (none, names, '*', '*'+Omit, names+Omit, Omit('*'); each name spelled as field name, column name or - 1 column spelling in 6 - column name qualified with the written table 'tbl.col'; the list of names handed over as Select(a, b, c), Select([]string{..}), Select(a, []string{..}), Select([]string{..}, c), Select([]string{a}, []string{..}), Omit(a, b, c) or - 2 in 5 lists of two or more names - ONE comma-joined string Omit(\"a,b\" | \"a, b\" | \"a , b\") with every mix of spellings at every position) x values zero / non-zero / pointer-to-zero / nil / gorm.Expr / for the slice and map kinds an EMPTY BUT NON-NIL value ([]byte{}, []string{}, map[string]int64{}, StrList{}: not the zero value of its type, so Updates(struct), UpdateColumns(struct), Save and every insert must write it - an empty blob, \"[]\", \"{}\" - while nil is the zero value; 1 non-zero collection value in 3 in structs, the \"zero\" slot of map values and DoUpdates assignments) x targets Model(key), Where (8 forms, 1..2), Model(key)+Where, Model(slice | array, of T | *T, of keys)[+Where] whose elements may have a zero key PART (composite keys), repeat a key (1 in 6) or carry no key at all (1 in 5; one time in three as the last element), missing key, value = model [+Where]; creates whose records carry integer keys while the key column is omitted / left unselected (1 in 5: the database must assign the key); one operation in three runs its chain calls (Model, Where, Select, Omit, Clauses) in a random order; one update in three carries Clauses(clause.Returning{}) or a Returning naming 1..3 columns (UPDATE ... RETURNING scanned back into the model value), one struct create / upsert / Save in five does; REUSED HANDLE: after one update in three (no new Session) a SECOND update finisher - any of Updates(struct | map), Update, UpdateColumn, UpdateColumns(struct | map) with its own values - is called on the same *gorm.DB handle, either on the variable holding the chain (tx := db.Table(..).Model(..).Where(..).Select(..).Clauses(..); tx.Update(..); tx.Updates(..)) or on the handle the first finisher returned (the chained spelling ....Updates(a).UpdateColumns(b)), and after one Create / Create(slice) / CreateInBatches in four a second one with fresh records; the table is re-seeded with raw SQL between the two, so each finisher is checked on its own against the same prediction rules: it must write exactly ITS keys / non-zero fields to the rows the shared chain addresses; a column an INSERT may not write must hold the column's DDL default (else NULL); " +
-		"distinct = (finisher, target form, Select/Omit mode and spelling, permission tags denied, value forms, which check classes occurred, key kind, kinds of default whose given value had to be kept out of an INSERT, key carried but omitted, chain calls reordered, call form of the Select list and of the Omit list incl. the separator of a comma-joined one, cells written through an embedded struct, embedding forms of the model, roles of the duplicate fields next to a checked cell, container and element forms of a Model(slice), an empty non-nil collection value had to be written, form of the RETURNING clause, first or second finisher on the handle); non-trivial = at least one cell had to be written or refreshed, or a given value had to be kept out by a permission tag / Select / Omit",
+		"Create(struct | slice | []*T | map | []map), CreateInBatches, upsert (DoUpdates AssignmentColumns / Assignments, UpdateAll, DoNothing; conflicting and new keys mixed), Save (existing key, new key, zero key, slice, under a Where), Updates(struct by value/pointer, value = model), Updates(map), Update, UpdateColumn, UpdateColumns(struct | map) x Select/Omit (none, names, '*', '*'+Omit, names+Omit, Omit('*'); each name spelled as field name, column name or - 1 column spelling in 6 - column name qualified with the written table 'tbl.col'; the list of names handed over as Select(a, b, c), Select([]string{..}), Select(a, []string{..}), Select([]string{..}, c), Select([]string{a}, []string{..}), Omit(a, b, c) or - 2 in 5 lists of two or more names - ONE comma-joined string Omit(\"a,b\" | \"a, b\" | \"a , b\") with every mix of spellings at every position) x values zero / non-zero / pointer-to-zero / nil / gorm.Expr / for the slice and map kinds an EMPTY BUT NON-NIL value ([]byte{}, []string{}, map[string]int64{}, StrList{}: not the zero value of its type, so Updates(struct), UpdateColumns(struct), Save and every insert must write it - an empty blob, \"[]\", \"{}\" - while nil is the zero value; 1 non-zero collection value in 3 in structs, the \"zero\" slot of map values and DoUpdates assignments) x targets Model(key), Where (8 forms, 1..2), Model(key)+Where, Model(slice | array, of T | *T, of keys)[+Where] whose elements may have a zero key PART (composite keys), repeat a key (1 in 6) or carry no key at all (1 in 5; one time in three as the last element), missing key, value = model [+Where]; creates whose records carry integer keys while the key column is omitted / left unselected (1 in 5: the database must assign the key); one operation in three runs its chain calls (Model, Where, Select, Omit, Clauses, Attrs, Assign) in a random order; one update in three carries Clauses(clause.Returning{}) or a Returning naming 1..3 columns (UPDATE ... RETURNING scanned back into the model value), one struct create / upsert / Save in five does; REUSED HANDLE: after one update in three (no new Session) a SECOND update finisher - any of Updates(struct | map), Update, UpdateColumn, UpdateColumns(struct | map) with its own values - is called on the same *gorm.DB handle, either on the variable holding the chain (tx := db.Table(..).Model(..).Where(..).Select(..).Clauses(..); tx.Update(..); tx.Updates(..)) or on the handle the first finisher returned (the chained spelling ....Updates(a).UpdateColumns(b)), and after one Create / Create(slice) / CreateInBatches in four a second one with fresh records; the table is re-seeded with raw SQL between the two, so each finisher is checked on its own against the same prediction rules: it must write exactly ITS keys / non-zero fields to the rows the shared chain addresses; a column an INSERT may not write must hold the column's DDL default (else NULL); " +
+		"FIRSTORCREATE (4 kinds in 38): db[.Model(&T{})].Where(..)[.Select/Omit][.Attrs(a)][.Assign(b)].FirstOrCreate(&dest[, cond]) with a and b each a map (every value form) or a struct by value / pointer (1..3 non-zero fields, pointer-to-zero included), Model(&T{}) on the chain one time in two, the single condition handed to the finisher instead of to Where one time in four, dest zero, carrying a key, or (not-found path) carrying values of its own; FOUND path (conditions of the 8 Where forms, none at all, or dest's key): with Assign the values of b must reach - exactly as Updates(map of b's keys / b's non-zero fields) would: permission tags, Select/Omit, refresh of tracked update time - the FOUND row only (first by primary key among the rows matching the conditions; 2..5 rows match in half of the cases) and no other row matching the conditions; with Attrs only nothing may be written; NOT-FOUND path (a new key as map condition, as string condition, or a fresh value of a data column as map / struct condition, dest with the new key or a database-assigned one): the created row is dest overlaid with the equality conditions, Attrs, then Assign, and obeys the rules of Create (create permission, Select/Omit, defaults); " +
+		"ASSOCIATION MODE (7 kinds in 38, models with association fields): one model in three has 1..2 association fields to static types - has-many Pets []C10Pet | []*C10Pet, has-one Toy, belongs-to Company with its foreign-key field CompanyID (int64 | *int64 | sql.NullInt64 | uint; an ordinary data field for every other operation), many2many Tags - with foreignKey / references / joinForeignKey named in the tag for all four key kinds; db[.Table(t)].Model(&owner | &[]T{o1, o2} | &[]*T{o1, o2}).Association(name).Append / Replace / Clear / Delete(records as pointers or one slice; existing, new and database-assigned keys) where every in-memory owner has the key of a seeded row and data fields that DIFFER from the row (the row changed behind its back), and one relation field in two - the relation itself or another one - already carries loaded / never-saved records: of the owner's table only the foreign key of the belongs-to relation may change (Append / Replace: the key of the linked record; Clear: NULL; Delete: NULL where the row is linked to a named record), in the owners' rows only; every other cell keeps its content; " +
+		"one chain in four does not start with db.Table(name) (the table is the one of the model's schema); " +
+		"distinct = (finisher, target form, Select/Omit mode and spelling, permission tags denied, value forms, which check classes occurred, key kind, kinds of default whose given value had to be kept out of an INSERT, key carried but omitted, chain calls reordered, call form of the Select list and of the Omit list incl. the separator of a comma-joined one, cells written through an embedded struct, embedding forms of the model, roles of the duplicate fields next to a checked cell, container and element forms of a Model(slice), an empty non-nil collection value had to be written, form of the RETURNING clause, first or second finisher on the handle, FirstOrCreate path / Model on the chain / forms of Attrs and Assign / inline condition, association type / pointer forms / owner container / records already carried, chain with or without Table); non-trivial = at least one cell had to be written or refreshed, or a given value had to be kept out by a permission tag / Select / Omit, or a differing in-memory value of an owner had to be kept out by association mode, or a found record had to be left alone for want of Assign",
 	Assumptions: []string{
-		"the table is created with raw SQL (the migrator is not under test) and every chain starts with db.Table(name) (reflect.StructOf types have no name); ignored fields (`-`, `-:all`) get a ghost column so that a write to them is visible",
+		"the table is created with raw SQL (the migrator is not under test); reflect.StructOf types have no name, so three chains in four start with db.Table(name) and the handle's NamingStrategy maps the empty type name to the table of the running case (stands for a TableName method; every case's type is made unique by a second tag key on its first field, gorm caches one schema per type); ignored fields (`-`, `-:all`) get a ghost column so that a write to them is visible",
 		"`->:false` without a `<-` tag: the statement does not fix its write permission, the column is not checked in addressed rows (rows outside the target are)",
 		"tracked time fields never carry a permission tag, and hook-running map updates / Update never name a tracked update-time field (refresh versus given value is not fixed by the statement)",
 		"on inserts (Create, batch, map, upsert, Save of a new key) tracked time columns are not checked: the statement only fixes their refresh on updates; on upsert conflicts they are not checked either, except Save(slice) which must refresh tracked update-time fields",
@@ -650,7 +741,7 @@ var Engine = &core.Engine{
 		"within one batch of structs a database-evaluated default field is zero in every record or non-zero in every record (for a mixed batch gorm renders the DEFAULT keyword, which SQLite does not parse); time, slice and map fields only get default:null; key, tracked-time and ignored fields get no default",
 		"a field tagged ->:false (not readable) gets no default: gorm adds RETURNING <col> for database-default fields and fails to scan it back into an unreadable field (Scan error / nil field dereference in gorm.Scan, later rows of the batch not inserted): a read-back matter outside this statement, see the report of the strengthening round",
 		"the key column is omitted / left unselected on creates only for single integer keys (the database can assign one); string and composite keys are always written",
-		"the chain calls commute: Table() always comes first, the finisher last, map conditions use column names (no model is needed to resolve them)",
+		"the chain calls commute: Table() (when present) always comes first, the finisher last, map conditions use column names (no model is needed to resolve them)",
 		"one violation per distinct class of disagreement of an operation (so a known finding does not hide another class in the same operation); the known-finding signature upsert-doupdates-ignores-update-permission is only given to existing (conflicting) rows",
 		"name lists: Omit's documented one-string form is a comma-separated list (separators: a comma with optional blanks around it; other separators gorm happens to split on are not generated); a comma-joined string given to Select is NOT generated (on write paths gorm takes it as one unknown name: not fixed by the statement); Select and Omit are each called at most once per chain (a second call replaces the first list: not fixed by the statement); the table-qualified spelling is only used with the column name and the statement's own table (db.Table(name)), never with a field name, another table, quotes or 'tbl.*'",
 		"the value of Updates(struct) has the model's own type (different-schema values are not generated)",
@@ -660,6 +751,8 @@ var Engine = &core.Engine{
 		"slice and map kinds: a value handed over in a MAP (Updates(map), Update, UpdateColumn(s)(map), clause.Assignments) does not pass through the field's serializer, so map values of serializer:json fields are given in their stored form (the JSON text), nil or gorm.Expr; []byte and the Valuer type are given as Go values; conditions never compare such a column; the JSON texts contain no characters json.Marshal escapes",
 		"RETURNING: named columns never include an unreadable (->:false) column - gorm fails to scan it back ('unsupported Scan, storing driver.Value type ... into type *struct') and the default transaction rolls the write back: the same read-back matter as the RETURNING of database-default fields above, outside this statement - and name all key columns or none (a part of a composite key scanned by position into the elements of a Model(slice) mixes the keys of different rows); map creates carry no Returning; CreateInBatches under Clauses(clause.Returning{}) (all columns) is generated since the panic it caused was repaired (const genBatchReturningAll)",
 		"second finisher on a handle: only where what the handle addresses after the first finisher is fixed - not when the value is the model itself (assigned / loaded by the first finisher), not under RETURNING with a key-less Model(&T{}) (RETURNING loads the first returned row's key into it), not under RETURNING * with a Model(array of *T) (unfilled elements are left nil and the next finisher dereferences them), and not under RETURNING with a Model(slice) when the first finisher addressed no row (the slice is emptied); a column-update finisher leaves the handle in skip-hooks mode, so only column-update finishers follow one (whether a later Updates on that handle is hook-running is not fixed by the statement); Select('*') lets a second struct value follow only where it can carry the key of the single addressed row; a second create follows only plain Create / CreateInBatches of structs; violations of the second finisher have the signature second-finisher-on-handle/<family>/<class>",
+		"FirstOrCreate: which record is 'first' is fixed by the primary key order only: cases where several matching rows share the smallest first key column (composite keys are ordered by their first column) or where the found key has a zero part are skipped (counter ops_firstorcreate_skipped_path_not_fixed), as are cases whose conditions select the other path than the generator aimed at; Model on the chain is the empty Model(&T{}) only (a key in Model is not a condition of the query but would be one of the update); Attrs / Assign never name collection kinds (a slice value of the Assign map is rendered as a value list), tracked update-time fields or, in struct form, unreadable (->:false) and ignored fields (a struct is read through its readable fields); a zero field of an Assign struct that Select names is not checked on the found path (Updates(struct) would write it, the found path hands over the non-zero fields as a map); on the not-found path maps carry plain values only (no gorm.Expr: they are set on dest with field.Set), string conditions are not taken over into dest, and conditions on data columns use plain int / string fields without default or tracked time; Select lists name all key columns (Select also narrows the query that loads the found record, which is then addressed by its key) and no ignored field; Select/Omit modes: none, names, '*', Omit(names)",
+		"association mode: the statement fixes no Select list for the owner, so the reading is: the call writes a link, and of the owner's table only the belongs-to foreign key may change; whether linking refreshes the owner's tracked update-time columns is not checked; the tables of the associated records and the join table are re-seeded before every call and NOT inspected (link sets are C12's subject); no Select/Omit/Where on an association chain, no FullSaveAssociations, no Unscoped, no polymorphic or self-referential relation; owners are rows with a complete key; a slice of owners takes one argument per owner; a record whose key the database assigns is only handed to a single owner (the expected foreign key is then max(id)+1 of the seeded c10_companies); db.Table(name) in front of an association chain only for belongs-to and for Append on has-many / many2many (with Table the statements Replace / Clear / Delete run against the ASSOCIATED table of has-one / has-many and against the join table of many2many are redirected to the named table - UPDATE `owners` SET `owner_id`=NULL WHERE `c10_pets`.`owner_id` IN (..), DELETE FROM `owners` WHERE `c10_owner_tags`.`owner_id` IN (..) - and fail with 'no such column': not fixed by the statement); relation fields are left zero in every other operation; violations have the signature association-<append|replace|clear|delete>/<class>, class association-owner-column-written for a cell that had to be left alone",
 		"a permission-less duplicate on the shorter path is always declared AFTER the embedded struct that holds the writable field; declared before it, it is the first to claim the column and gorm keeps it (the writable field is ignored on every write path): which of two fields owns a column is not fixed by the statement, so that order is not generated",
 	},
 	Cases: func(tier string) int {
